@@ -298,6 +298,17 @@ def oracle_(case):
         return True, "black is not installed: skipped"
     with fl.settings.context(decimals=d, alias=alias), np.errstate(all="ignore"):
         e = G.build(case["spec"])
+        if case.get("origin") == "fll":
+            # an engine that was imported from the FuzzyLite Language (its Function / Linear terms are loaded and hold
+            # the engine reference the importer gave them)
+            e = fl.FllImporter().from_string(fl.FllExporter().to_string(e))
+        if case.get("touch"):
+            # a history: the engine has been exported once, then rule weights are changed by attribute, then it is
+            # exported again - the second export must describe the engine as it is now
+            repr(e), str(e)
+            for bi, b in enumerate(e.rule_blocks):
+                for ri, r in enumerate(b.rules):
+                    r.weight = [0.5, 0.25, 0.75][(bi + ri) % 3] if abs(float(r.weight) - 0.5) > 1e-9 else 0.25
         targets = [e] if case.get("kind", "engine") == "engine" else components(e)
         if case.get("kind") == "component" and "index" in case:
             targets = [targets[case["index"]]]
@@ -327,7 +338,12 @@ def oracle_(case):
                 return False, f"{what}: repr of the rebuilt object differs: " + first_diff(r0, repr(y))
             if fll_of(y) != fll_of(x):
                 return False, f"{what}: FLL of the rebuilt object differs: " + first_diff(fll_of(x), fll_of(y))
-            if isinstance(x, fl.Engine) and case.get("rows") and outputs_comparable(case["spec"], d):
+            if isinstance(x, fl.Engine) and case.get("touch"):
+                w1 = [float(r.weight) for b in x.rule_blocks for r in b.rules]
+                w2 = [float(r.weight) for b in y.rule_blocks for r in b.rules]
+                if len(w1) != len(w2) or any(abs(a - b) > 0.5 * 10 ** (-d) + 1e-12 for a, b in zip(w1, w2)):
+                    return False, f"{what}: rule weights of the rebuilt engine {w2} differ from the original's {w1}"
+            if isinstance(x, fl.Engine) and case.get("rows") and (outputs_comparable(case["spec"], d) or case.get("touch")):
                 o1, o2 = G.run_rows(x, case["rows"]), G.run_rows(y, case["rows"])
                 if o1 != o2:
                     i = next(i for i, (a, b) in enumerate(zip(o1, o2)) if a != b)
@@ -361,8 +377,13 @@ def engine_cases(ctx):
                 for r in b["rules"]:
                     r["weight"] = G.fhex(G.height_pool(rng, d, True))
         rows = G.input_rows(rng, spec, ctx.scale(4, 8))
-        yield {"kind": "engine", "decimals": d, "spec": spec, "rows": rows, "alias": ALIASES[i % 4],
-               "mode": "plain" if i % 3 else "encapsulated", "formatted": bool(i % 2) and HAVE_BLACK}
+        case = {"kind": "engine", "decimals": d, "spec": spec, "rows": rows, "alias": ALIASES[i % 4],
+                "mode": "plain" if i % 3 else "encapsulated", "formatted": bool(i % 2) and HAVE_BLACK}
+        if i % 4 == 2:      # an even index: outputs are comparable
+            case["origin"] = "fll"
+        if i % 6 == 2 and exact:
+            case["touch"] = True
+        yield case
 
 
 def variants(case):
